@@ -144,7 +144,9 @@ fn one_system(st: &mut Stats, rng: &mut Rng) {
     let a = match catch(|| sys.sparse(rng)) { Outcome::Ok(a) => a, _ => return };
     let bkind = if sys.class == "small-integer" { 9 } else { rng.below(8) };
     let b: Vec<f64> = match bkind { 0 => vec![0.0; n], 1 => (0..n).map(|_| rng.sym() * 1e6).collect(), 2 => (0..n).map(|_| rng.sym() * 1e-6).collect(), 3 => { let sc = *rng.pick(&[1e-18, 1e-40, 1e40, 1e-80, 2f64.powi(-520), 2f64.powi(-500), 2f64.powi(-540), 2f64.powi(-528), 1e100, 1e150, 1e200, 1e-200, 1e-250, 1e250]); (0..n).map(|_| rng.sym() * sc).collect() } 9 => (0..n).map(|_| rng.int(-3, 3) as f64).collect(), _ => (0..n).map(|_| rng.sym()).collect() };
-    let x0: Vec<f64> = match rng.below(4) { 0 | 1 => vec![0.0; n], 2 => (0..n).map(|_| rng.sym()).collect(), _ => (0..n).map(|_| rng.sym() * 1e3).collect() };
+    // (kind 4: a 'wild' guess whose entries span the whole exponent range, subnormals included - any guess is a legitimate
+    //  input, and with a zero budget it must come back bit for bit)
+    let x0: Vec<f64> = match rng.below(5) { 0 | 1 => vec![0.0; n], 2 => (0..n).map(|_| rng.sym()).collect(), 3 => (0..n).map(|_| rng.sym() * 1e3).collect(), _ => (0..n).map(|_| match rng.below(6) { 0 => 0.0, 1 => f64::from_bits(rng.below(1 << 40) + 1) * if rng.bool() { 1.0 } else { -1.0 }, _ => rng.sym() * 10f64.powf(rng.range(-300.0, 300.0)) }).collect() };
     let tol = rng.logpos(1e-12, 1e-2);
     let budget = if sys.class == "small-integer" { rng.usize(0, 2 * n + 2) } else { *rng.pick(&[0usize, 1, 2, 3, 4, n, 3 * n + 10, 20 * n + 50]) };
     let x0: Vec<f64> = if sys.class == "small-integer" && rng.bool() { vec![0.0; n] } else { x0 };
@@ -174,6 +176,47 @@ fn one_system(st: &mut Stats, rng: &mut Rng) {
                 let mut x4 = Vector::create(x0.clone());
                 let r4 = catch(|| sv.call(&a, &bv, &mut x4, it, tol));
                 if !matches!(r4, Outcome::Ok(Ok(k)) if k == it) || bits(&x4.vec) != bits(&x.vec) { st.violation(&format!("C08:{}:exact-budget-differs", sv.name()), format!("with max_iter = {} (the count reported under max_iter = {}) the answer is {:?}; {}", it, budget, r4, desc())); }
+            }
+            // metamorphic: units. A*2^alpha, x0*2^beta, b*2^(alpha+beta) is the same problem in other units (all scalings
+            // exact); the solver must take the same number of iterations and return x*2^beta bit for bit, also when the scaled
+            // problem has a tiny guess next to a huge matrix, or a right-hand side in the top binade
+            // (only for guesses within 60 decades of the right-hand side in the units of A: the squared initial residual must be
+            //  representable in both unit systems)
+            if it >= 1 && b.iter().any(|v| *v != 0.0) && sys.frob() * norm2(&x0) <= 1e60 * norm2(&b) && rng.chance(0.35) && x0.iter().chain(&x.vec).all(|v| *v == 0.0 || (v.abs() > 1e-250 && v.abs() < 1e250)) {
+                let bmax = b.iter().fold(0.0f64, |m, v| m.max(v.abs()));
+                let p2 = |e: i32| -> (f64, f64) { (2f64.powi(e / 2), 2f64.powi(e - e / 2)) };
+                let (alpha, beta) = if bmax > 0.0 && rng.chance(0.1) { let al = rng.int(-200, 200) as i32; (al, 1023 - bmax.log2().floor() as i32 - al) } else { (rng.int(-330, 330) as i32, rng.int(-660, 660) as i32) };
+                let okr = |v: f64, e: i32, top: bool| v == 0.0 || { let m = v.abs().log2() + e as f64; m > -960.0 && (m < 960.0 || (top && m < 1023.999)) };
+                // products of the form (A v).(A v) with v at the scale of b (or O(1) once b is rescaled by the library) must stay
+                // representable in the scaled units: that is a limit of every unscaled Krylov recurrence, not a defect
+                // log2 sizes of A, b, x0 in both unit systems; the recurrences form (A v).(A v) with v at the scale of the
+                // initial residual max(||b||, ||A|| ||x0||) (divided by max|b_i| once the library has rescaled b)
+                let fx0 = if x0.iter().all(|v| *v == 0.0) { f64::NEG_INFINITY } else { norm2(&x0).log2() };
+                let ok_units = |fa: f64, fb: f64, fx: f64, bm: f64| -> bool {
+                    let in_window = bm > 1.0e-100 && bm < 1.0e100; // the library's own test (src/sparse.rs rhs_scale)
+                    let frs = if in_window { fb.max(fa + fx) } else { (fa + fx - fb).max(0.0) };
+                    (fa + frs).abs() < 460.0 && frs.abs() < 460.0 && fa.abs() < 900.0
+                };
+                let bmax2 = { let (f, g) = p2(alpha + beta); bmax * f * g };
+                let prod_ok = ok_units(sys.frob().log2() + alpha as f64, norm2(&b).log2() + (alpha + beta) as f64, fx0 + beta as f64, bmax2);
+                let prod_ok0 = ok_units(sys.frob().log2(), norm2(&b).log2(), fx0, bmax);
+                if prod_ok && prod_ok0 && sys.trip.iter().all(|t| okr(t.2, alpha, false) && okr(t.2, 0, false)) && x0.iter().chain(&x.vec).all(|v| okr(*v, beta, false)) && b.iter().all(|v| okr(*v, alpha + beta, true) && okr(*v, 0, false)) && d.iter().flatten().zip(std::iter::repeat(0)).all(|(v, _)| okr(*v, alpha, false)) {
+                    let sc = |v: f64, e: i32| { let (f, g) = p2(e); v * f * g };
+                    let sys2 = Sys { n, trip: sys.trip.iter().map(|t| (t.0, t.1, sc(t.2, alpha))).collect(), class: sys.class };
+                    // same storage order as `a`: rebuilt from a's own triplet view
+                    let a2 = catch(|| { let mut t: Vec<(usize, usize, f64)> = a.to_triplets().into_iter().map(|t| (t.0, t.1, sc(t.2, alpha))).collect(); Sparse::<f64>::from_triplets(n, n, &mut t) });
+                    if let Outcome::Ok(a2) = a2 {
+                        let b2 = Vector::create(b.iter().map(|v| sc(*v, alpha + beta)).collect::<Vec<f64>>());
+                        let mut x2 = Vector::create(x0.iter().map(|v| sc(*v, beta)).collect::<Vec<f64>>());
+                        let r2 = catch(|| sv.call(&a2, &b2, &mut x2, budget, tol));
+                        st.eval();
+                        let want: Vec<f64> = x.vec.iter().map(|v| sc(*v, beta)).collect();
+                        let same = matches!(r2, Outcome::Ok(Ok(k)) if k == it) && x2.vec.iter().zip(&want).all(|(p, q)| p.to_bits() == q.to_bits() || (*p == 0.0 && *q == 0.0));
+                        if !same { st.violation(&format!("C08:{}:unit-dependent", sv.name()), format!("A*2^{}, x0*2^{}, b*2^{}: answer {:?} with x = {:?}; in the original units Ok({}) with x = {:?} (expected the same count and x*2^{}); {}", alpha, beta, alpha + beta, r2, x2.vec, it, x.vec, beta, desc())); }
+                        st.count("unit-scaling-checks");
+                        let _ = sys2;
+                    }
+                }
             }
             // metamorphic: a larger budget does not change an Ok answer
             if it > 0 && rng.chance(0.2) {
